@@ -16,7 +16,7 @@ def wsHasBreak (ws : Bytes) : Bool := ws.any fun b => b == 0x0D || b == 0x0A
 
 /-- `DelphiLogicalLineParser::parse` followed by the three consolidators; `none` = the parser model gives no answer -/
 def parseAndConsolidate (raw : List RawTok) : Option ParserOut :=
-  match parseFileFull (raw.map fun t => (t.kind, wsHasBreak t.ws)) with
+  match parseFileMasked (raw.map fun t => (t.kind, wsHasBreak t.ws)) with
   | none => none
   | some o => some (consolidators { kinds := o.kinds.map (·.toTokenType), lines := o.lines.map PLine.toLine })
 
